@@ -100,9 +100,20 @@ def growth_oracle(ctx, spec, T, seed, kind, args, vol0, r):
         if args["noise"] == 0:
             divT = math.log(args["avg"] / vol0) / g
             if divT <= T[-1] - dt:
-                ok = r["divided"] and (divT - 1e-9 <= times[-1] <= divT + dt + 1e-9)
+                # the simulator's ticks are the accumulated floats t0 + dt + dt + ...; division is reported at the first tick t
+                # with t - dt < divT <= t, and the rows written by then are the grid times <= that tick (a tick that falls
+                # one ulp short of its grid value has not reached it).  Candidates for divT and its float neighbours.
+                ends = set()
+                for dT in (divT - 1e-12, divT, divT + 1e-12):
+                    t = float(T[0])
+                    for _ in range(len(T) + 2):
+                        t = t + dt
+                        if dT > t - dt and dT <= t:
+                            break
+                    ends.add(max([float(x) for x in T if x <= t] or [float(T[0])]))
+                ok = r["divided"] and float(times[-1]) in ends
                 if not ok:
-                    ctx.violation("volume/division", "division time %g: result ends at t=%g, divided=%s" % (divT, times[-1], r["divided"]), rep)
+                    ctx.violation("volume/division", "division time %g: result ends at t=%g (expected %s), divided=%s" % (divT, times[-1], sorted(ends), r["divided"]), rep)
             elif divT > T[-1] + dt:
                 if r["divided"] or len(times) != len(T):
                     ctx.violation("volume/division", "no division before the horizon, yet the result is truncated or flagged", rep)
